@@ -7,6 +7,7 @@ a block contributes exactly a start marker first and an end marker last carrying
 flatten_block returned, two rows appended by a call share an id only as the (start, end) pair of one block, rows appended earlier are never removed.
 NOT covered: arbitrary text through tree-sitter and the seven frontends; add_main_func / GIRBlockViewer (see ASSUMPTIONS).
 """
+import ast
 import z3
 from lianvc import sorts as S
 from lianvc.sorts import Any, Int, Bool, Str, NoneT, Opt, List, Dict, Set, Tuple, TupleOf, Obj, Val, Fn
@@ -346,10 +347,43 @@ def range_lemmas(reg, tier):
     return [solve.discharge_fresh(VC(f'{PROPERTY}:lemma:ids-of-consecutive-files-are-disjoint-(incl.-%unit_init-ids)', hyps, id1 < id2, kind='lemma'), 20000)]
 
 
-EXTRA_OBLIGATIONS = [range_lemmas]
+def static_guarded_io(reg, tier):
+    """"never terminates with an unhandled exception", the part within reach: in GIRParser.parse the file read (open / read: OSError, and UnicodeDecodeError — a ValueError —
+    for bytes that are not valid text) and the tree-sitter call each sit in the body of a try whose handler catches every exception. Structural (AST), not symbolic."""
+    from lianvc import source
+    fn = source.load(LA).function('GIRParser.parse')
+    par = {}
+    for n in ast.walk(fn):
+        for ch in ast.iter_child_nodes(n):
+            par[id(ch)] = n
+
+    def guarded(node):
+        cur = node
+        while id(cur) in par:
+            up = par[id(cur)]
+            if isinstance(up, ast.Try) and any(cur is b_ or any(cur is x for x in ast.walk(b_)) for b_ in up.body):
+                for h in up.handlers:
+                    if h.type is None or (isinstance(h.type, ast.Name) and h.type.id in ('Exception', 'BaseException')) or \
+                            (isinstance(h.type, ast.Tuple) and any(isinstance(e_, ast.Name) and e_.id in ('Exception', 'BaseException') for e_ in h.type.elts)):
+                        if not any(isinstance(x, ast.Raise) for b_ in h.body for x in ast.walk(b_)):
+                            return True
+            cur = up
+        return False
+    risky = [n for n in ast.walk(fn) if isinstance(n, ast.Call) and (ast.unparse(n.func) in ('open', 'bytes') or
+                                                                      (isinstance(n.func, ast.Attribute) and n.func.attr in ('read', 'readlines') and not n.args) or
+                                                                      ast.unparse(n.func) == 'ast_parser.parse')]
+    bad = [f'line {n.lineno}: {ast.unparse(n)[:50]}' for n in risky if not guarded(n)]
+    ok = len(risky) >= 3 and not bad
+    return [dict(name=f'{PROPERTY}:static:reading-the-file-and-the-tree-sitter-call-are-inside-catch-all-handlers-(undecodable-or-unreadable-files-yield-no-GIR,-not-a-traceback)',
+                 kind='static', verdict='unsat' if ok else 'sat', backend='ast-evaluation', time_s=0.0, model=None if ok else {'detail': bad or [f'only {len(risky)} risky calls found']},
+                 reason='' if ok else str(bad[:3]))]
+
+
+EXTRA_OBLIGATIONS = [range_lemmas, static_guarded_io]
 
 ASSUMPTIONS = [
-    '"whatever text is given ... never terminates with an unhandled exception" is NOT decided: tree-sitter and the seven frontends are outside; the proofs start at '
+    '"whatever text is given ... never terminates with an unhandled exception" is NOT decided beyond one structural obligation (file read and tree-sitter call of GIRParser.parse '
+    'sit in catch-all handlers): tree-sitter and the seven frontends are outside; the proofs start at '
     'the GIR statement lists the frontends hand over',
     'frontend output shape (assumed, hereditary, never checked at call sites): GIR lists hold plain values or containers; a statement dict has at least one key, its first '
     'key is the operation; a dict payload does not use the reserved keys operation/stmt_id/parent_stmt_id; the output list is not part of the input tree',
